@@ -15,6 +15,11 @@ type FuncInfo struct {
 	P  *Program
 	Fn *ssa.Function
 
+	phiJoin     map[*ssa.Phi][]phiRel
+	paramLen    map[int]int64
+	pathBusy    bool
+	phiJoinBusy map[*ssa.Phi]bool
+
 	ids          map[ssa.Instruction]string
 	objClass     map[ssa.Value]Class
 	objVisiting  map[ssa.Value]bool
